@@ -22,8 +22,9 @@ let nonempty chunks = List.filter (fun c -> c <> []) chunks
 let run_one d data cuts flush final_empty =
   let chunks = nonempty (split_at data cuts 0) in
   let chunks = if final_empty then chunks @ [[]] else chunks in
-  if flush then render_recs (decode_flush d chunks)
-  else render_recs (records_of (snd (decode_chunks d chunks)))
+  (* CsvDecoder::decode = decode_h (a first read ending inside a BOM is held back) *)
+  if flush then render_recs (decode_flush_h d chunks)
+  else render_recs (records_of (snd (decode_chunks_h d chunks).h_st))
 
 (* decode: "<delim> <quote> <hex|-> <all2|cuts> <flush> <final_empty> [<cuts;cuts;..>]"  ('-' = no cut)
    -> line 1: distinct results joined by '|', line 2: index per chunking joined by ',' *)
@@ -132,7 +133,7 @@ let reader_cmd () =
          let chunks = chunks_of data (int_of_string rb) in
          let d = dialect_of dl q in
          let types = List.map cand_of (split_on ',' tys) in
-         (match reader_loop d (nat_of_int (int_of_string cap)) (hdr = "1") st_init chunks with
+         (match reader_loop_h d (nat_of_int (int_of_string cap)) (hdr = "1") h_init chunks with
           | None -> print_endline "PANIC"
           | Some rows -> print_endline (render_rows (type_rows types rows)))
        | [] -> ()
